@@ -33,6 +33,10 @@ CHECKS = {
          "Held on 201 (quick) / 499 (thorough) uninterrupted real plots at bit lengths 8-20 and 24 across 33-71 distinct window shapes: every table entry equalled the reference construction and was sound, and every bl-24 challenge was served a verifying proof exactly when the construction has one. Bit lengths >= 26, real low-memory conditions (emulated by the hook) and resumed plots (C10) are not covered.",
          "trusts mass-core pocutil.P/F/FlipValue and poc.VerifyProof as the definition of the construction; refplot self-checked at start-up",
          "DESIGN.md §3 C07"),
+ "C08": ("exploration", "runtime monitoring of the real miner against scripted chain/keeper seams with a recomputing oracle (seeded scenario exploration on real 3 s slots)",
+         "Held on 60 (quick) / 600 (thorough) seeded scenarios in which the real PoC miner ran against scripted templates, proof sets from bit-length-24 reference tables, competing tips and Stop() calls; every block it handed to ProcessBlock was re-derived with the chain library's VerifyProof/VerifiedQuality and the scripted target function and checked for proof, binding, strict quality>target, earliest slot / best proof / look-ahead, header target and timestamp, signature, submission time, single success per height and abandonment. Not covered: behaviour during the timestamp wait after a proof is chosen.",
+         "the miner reads time.Now() itself (no injectable clock): time is an input of the system under test, scenarios with margins under 1.5 s are dropped, not judged; trusts mass-core poc.VerifyProof/VerifiedQuality and pocec",
+         "DESIGN.md §3 C08"),
  "C11": ("exploration", "seeded plot-directory/history exploration of the real keeper with hook-gated plotter (H3), per-operation file-system diff oracle, independent reference indexer, strace attribution of unlink/rename/truncate (thorough)",
          "Real keeper, real plot files and a real wallet over seeded plot directories (27 file classes across 1-3 directories) and gated action histories: a full directory listing is compared before and after every operation (only an accepted Delete, the end-of-plot removal of map A and the documented legacy rename may remove or rename plot files), Remove/Delete must be refused while plotting or mining, and every start-up/restart index is judged file by file against an independent reference indexer (header vs name, wallet key and ordinal, duplicates, recorded progress). Held = on the scenarios executed; file creation at start-up is observed, not judged (the statement forbids deletion).",
          "tables of bit length >= 24 are fabricated headers / sparse files, so 'never serves proofs from rejected files' is observed as absence of a proof object; trusts the harness reference indexer (cross-checked against the generator's own expectation in every scenario)",
